@@ -97,7 +97,81 @@ pub fn check(ctx: &NetCtx, w: &Witnesses, f: &F) -> Vec<String> {
     bad
 }
 
+/// Set of the states in `mask` on a (parameter-free) witness graph.
+fn set_of_mask(g: &SymbolicAsyncGraph, n: usize, mask: Mask) -> GraphColoredVertices {
+    let vars: Vec<_> = g.variables().collect();
+    let mut out = g.mk_empty_colored_vertices();
+    for s in 0..(1usize << n) {
+        if mask >> s & 1 == 1 {
+            let mut v = g.mk_unit_colored_vertices();
+            for (i, var) in vars.iter().enumerate() {
+                v = v.fix_network_variable(*var, s >> i & 1 == 1);
+            }
+            out = out.union(&v);
+        }
+    }
+    out
+}
+
+/// Extended formulae: the context sets of the instantiated network are the colour's slices of the
+/// parametrised context sets.
+pub fn check_ext(ctx: &NetCtx, w: &Witnesses, f: &F) -> Vec<String> {
+    let text = f.show(&ctx.user);
+    let mut bad = vec![];
+    let param = match ctx.ext(&text) {
+        Got::Set(s) => s,
+        other => return vec![format!("parametrised evaluation of {text} fails: {other:?}")],
+    };
+    if !ctx.is_canonical_shape(&param) {
+        return vec!["sanitised parametrised result is not in the canonical context".into()];
+    }
+    let slices = ctx.masks_of_canonical(&param);
+    for ci in 0..ctx.b.cols.len() {
+        let g = &w.graphs[ci];
+        let mut sets: std::collections::HashMap<String, GraphColoredVertices> = std::collections::HashMap::new();
+        for (i, m) in ctx.labels.wild.iter().enumerate() {
+            sets.insert(ctx.user.wilds[i].clone(), set_of_mask(g, ctx.b.n, m[ci]));
+        }
+        for (i, m) in ctx.labels.dom.iter().enumerate() {
+            sets.insert(ctx.user.doms[i].clone(), set_of_mask(g, ctx.b.n, m[ci]));
+        }
+        match guarded(AssertUnwindSafe(|| mc::model_check_extended_formula(&text, g, &sets))) {
+            Ok(Ok(r)) => match state_mask(&r, g, ctx.b.n) {
+                Ok(m) => {
+                    if m != slices[ci] {
+                        bad.push(format!(
+                            "colour {} [{}]: parametrised result has states {:0w$b}, the instantiated network (with the colour's slices of the context sets) gives {:0w$b}",
+                            ci,
+                            ctx.b.cols[ci].interp.describe(&ctx.b.spec),
+                            slices[ci],
+                            m,
+                            w = ctx.b.n_states()
+                        ));
+                    }
+                }
+                Err(e) => bad.push(e),
+            },
+            Ok(Err(e)) => bad.push(format!("instantiated network of colour {ci} rejects {text}: {e}")),
+            Err(p) => bad.push(format!("instantiated network of colour {ci} panics on {text}: {p}")),
+        }
+        if bad.len() > 2 {
+            break;
+        }
+    }
+    bad
+}
+
 pub fn replay(case: &Value) -> Option<String> {
+    if case["kind"] == "colour_ext" {
+        let spec = serde_json::from_value(case["net"].clone()).ok()?;
+        let b = Arc::new(Bound::new("replay", &spec, 3).ok()?);
+        let labels = Labels { wild: serde_json::from_value(case["labels"]["wild"].clone()).ok()?, dom: serde_json::from_value(case["labels"]["dom"].clone()).ok()?, props: vec![] };
+        let ctx = NetCtx::new(b.clone(), labels, "replay");
+        let w = Witnesses::new(&b).ok()?;
+        let f: F = serde_json::from_value(case["formula"].clone()).ok()?;
+        let bad = check_ext(&ctx, &w, &f);
+        return if bad.is_empty() { None } else { Some(bad.join(" | ")) };
+    }
     if case.get("model").is_some() {
         let v = job(case);
         let p = v["problems"].as_array()?;
@@ -290,6 +364,32 @@ pub fn run(tier: &str) -> Result<Report, String> {
         rep.add_count("failing_formulae", bad.len() as u64);
         rep.violations.extend(bad.into_iter().take(40));
     }
+    // extended formulae with colour-dependent context sets (a domain that is empty in some colours only,
+    // colour-disjoint sets, ...): the instantiated network gets the colour's slices of the sets
+    for b in nets.iter().filter(|b| b.cols.len() > 1 && b.n <= 2 && (tier != "quick" || ["imp1", "con2"].contains(&b.name.as_str()))) {
+        let w = Witnesses::new(b)?;
+        for (desc, labels) in crate::sweep::label_families(b, if tier == "quick" { 4 } else { 8 }) {
+            let ctx = NetCtx::new(b.clone(), labels, &desc);
+            let mut g = Gen::new(Alphabet::extended(ctx.nprops(), 2, 1, 2));
+            let mut fs: Vec<F> = g.closed_up_to(if tier == "quick" { 3 } else { 4 }).into_iter().filter(|f| f.uses_wild_or_dom()).collect();
+            fs.extend(templates(&ctx.user, true, if tier == "quick" { 2 } else { 5 }).into_iter().filter(|f| f.uses_wild_or_dom()));
+            let bad: Vec<Violation> = fs
+                .par_iter()
+                .filter_map(|f| {
+                    let bad = check_ext(&ctx, &w, f);
+                    if bad.is_empty() {
+                        None
+                    } else {
+                        Some(Violation { case: json!({"kind": "colour_ext", "net": b.spec, "aeon": b.aeon, "labels": {"wild": ctx.labels.wild, "dom": ctx.labels.dom}, "formula": f, "text": f.show(&ctx.user)}), what: format!("formula {} on {} labels={desc}: {}", f.show(&ctx.user), b.name, bad.join(" | ")), size: f.size() })
+                    }
+                })
+                .collect();
+            rep.evaluations += fs.len() as u64 * (1 + b.cols.len() as u64);
+            rep.traces_validated += fs.len() as u64 * b.cols.len() as u64;
+            rep.add_count("extended_formula_colour_pairs", fs.len() as u64 * b.cols.len() as u64);
+            rep.violations.extend(bad.into_iter().take(20));
+        }
+    }
     // multi-colour networks of the all-2-variable family (one per colour-count bucket; thorough: 6)
     let (all2, info) = all2_nets(3, Some(if tier == "quick" { 1 } else { 6 }))?;
     rep.set("all_2_variable_networks", info);
@@ -363,6 +463,6 @@ pub fn run(tier: &str) -> Result<Report, String> {
     rep.evaluations += big_total;
     rep.distinct_nontrivial += big_total;
     rep.sample(json!({"network": "unc2", "formula": "(!{x}: (AG (EF {x})))", "check": "for each of the 4 valid colours: states of the parametrised result at that colour == model_check_formula on pick_witness(colour) == explicit-state oracle"}));
-    rep.rule = format!("every core network with more than one valid colour (and a sample of the all-2-variable family: one network per colour-count bucket, thorough six, <= 64 colours, formulae <= 3 nodes) x every closed plain formula with <= {m} nodes (quick: 4 on imp1 and con2) and every plain template formula x EVERY valid colour: the state set of the sanitised parametrised result at that colour must equal model_check_formula on the graph of SymbolicAsyncGraph::pick_witness(colour) (and the oracle evaluates every colour in isolation by construction). Bundled models: myeloid with the update functions of its first 2 (thorough: also 4) small-arity variables erased, all colours; thorough adds cell_division and 110_9v on a declared sub-lattice of colours (every 64th); both tiers: a synthetic 44-variable network with 16 384 colours (2^58 state-colour pairs, beyond exact double arithmetic; a rising chain that only moves in the colour where all 14 parameters are true), four fixed colours x EG/AF/EF/AG/EW over a single-state argument. distinct_nontrivial = number of (formula, colour) pairs compared");
+    rep.rule = format!("(extended formulae with <= 3 (4) nodes + extended templates x label families with colour-dependent context sets on the multi-colour networks with <= 2 variables: slice of the parametrised result vs evaluation on the instantiated network with the slices of the context sets) every core network with more than one valid colour (and a sample of the all-2-variable family: one network per colour-count bucket, thorough six, <= 64 colours, formulae <= 3 nodes) x every closed plain formula with <= {m} nodes (quick: 4 on imp1 and con2) and every plain template formula x EVERY valid colour: the state set of the sanitised parametrised result at that colour must equal model_check_formula on the graph of SymbolicAsyncGraph::pick_witness(colour) (and the oracle evaluates every colour in isolation by construction). Bundled models: myeloid with the update functions of its first 2 (thorough: also 4) small-arity variables erased, all colours; thorough adds cell_division and 110_9v on a declared sub-lattice of colours (every 64th); both tiers: a synthetic 44-variable network with 16 384 colours (2^58 state-colour pairs, beyond exact double arithmetic; a rising chain that only moves in the colour where all 14 parameters are true), four fixed colours x EG/AF/EF/AG/EW over a single-state argument. distinct_nontrivial = number of (formula, colour) pairs compared");
     Ok(rep)
 }
